@@ -174,6 +174,30 @@ package curl
 // modelled as a sequence of exactly NL trit slices; 0 and 65 are the invalid sizes). p is the state just before the transformation: lane j of its first
 // 243 words holds src[j], the lanes beyond the batch hold zero trits, the other words are untouched.
 
+// Two blocks (tritsCount == 486): p1 and p2 are the states just before the first and the second
+// transformation. Block b of lane j is src[j][243*b : 243*b+243]; the second block is absorbed into the
+// state the first transformation produced.
+//@ func (c *Curl) Absorb(src []trinary.Trits, tritsCount int) (err error)
+//@   variant twoblocks
+//@   props C06
+//@   repr uint
+//@   specialize NL = 1 2
+//@   seqlen src NL
+//@   let p1 = recvn(Curl.transform, 1)
+//@   let p2 = recvn(Curl.transform, 2)
+//@   requires tritsCount == 486 && forall(j, 0, NL, len(src[j]) >= 486)
+//@   panics  when c.direction != SpongeAbsorbing
+//@   modifies c.l
+//@   modifies c.h
+//@   ensures isnil(err) && c.direction == old(c.direction)
+//@   ensures forall(i, 0, 729, c.l[i] == st(81, i, 0, p2.l, p2.h) && c.h[i] == st(81, i, 1, p2.l, p2.h))
+//@   ensures forall(i, 0, 243, forall(j, 0, NL, bitset(p2.l[i], uint(j)) == (src[j][243+i] <= 0) && bitset(p2.h[i], uint(j)) == (src[j][243+i] >= 0)))
+//@   ensures forall(i, 0, 243, forall(j, NL, 64, bitset(p2.l[i], uint(j)) && bitset(p2.h[i], uint(j))))
+//@   ensures forall(i, 243, 729, p2.l[i] == st(81, i, 0, p1.l, p1.h) && p2.h[i] == st(81, i, 1, p1.l, p1.h))
+//@   ensures forall(i, 0, 243, forall(j, 0, NL, bitset(p1.l[i], uint(j)) == (src[j][i] <= 0) && bitset(p1.h[i], uint(j)) == (src[j][i] >= 0)))
+//@   ensures forall(i, 0, 243, forall(j, NL, 64, bitset(p1.l[i], uint(j)) && bitset(p1.h[i], uint(j))))
+//@   ensures forall(i, 243, 729, p1.l[i] == old(c.l[i]) && p1.h[i] == old(c.h[i]))
+
 // (variant: nothing to absorb - a length of zero is accepted and leaves the sponge untouched)
 //@ func (c *Curl) Absorb(src []trinary.Trits, tritsCount int) (err error)
 //@   variant zerolen
@@ -215,6 +239,29 @@ package curl
 //@   ensures implies(isnil(err), forall(i, 0, 243, forall(j, 0, NL, bitset(p.l[i], uint(j)) == (src[j][i] <= 0) && bitset(p.h[i], uint(j)) == (src[j][i] >= 0))))
 //@   ensures implies(isnil(err), forall(i, 0, 243, forall(j, NL, 64, bitset(p.l[i], uint(j)) && bitset(p.h[i], uint(j)))))
 //@   ensures implies(isnil(err), forall(i, 243, 729, p.l[i] == old(c.l[i]) && p.h[i] == old(c.h[i])))
+
+// Two blocks (tritsCount == 486): q is the state just before the last transformation, that is the state
+// the first block was read from; it is the transformed entry state when the sponge was already
+// squeezing and the entry state itself otherwise. The second block is read from the transformed q.
+//@ func (c *Curl) Squeeze(dst []trinary.Trits, tritsCount int) (err error)
+//@   variant twoblocks
+//@   props C06
+//@   repr uint
+//@   specialize NL = 1 2
+//@   seqlen dst NL
+//@   let q = recv(Curl.transform, 1)
+//@   requires tritsCount == 486
+//@   panics  never
+//@   modifies c.l
+//@   modifies c.h
+//@   modifies c.direction
+//@   check   forall(j, 0, NL, len(dst[j]) == 486)
+//@   check   forall(j, 0, NL, forall(t, 0, 243, int(dst[j][t]) == trit(q.l[t], q.h[t], uint(j))))
+//@   check   forall(j, 0, NL, forall(t, 0, 243, int(dst[j][243+t]) == trit(c.l[t], c.h[t], uint(j))))
+//@   ensures isnil(err) && c.direction == SpongeSqueezing
+//@   ensures forall(i, 0, 729, c.l[i] == st(81, i, 0, q.l, q.h) && c.h[i] == st(81, i, 1, q.l, q.h))
+//@   ensures implies(old(c.direction) == SpongeSqueezing, forall(i, 0, 729, q.l[i] == st(81, i, 0, old(c.l), old(c.h)) && q.h[i] == st(81, i, 1, old(c.l), old(c.h))))
+//@   ensures implies(old(c.direction) != SpongeSqueezing, forall(i, 0, 729, q.l[i] == old(c.l[i]) && q.h[i] == old(c.h[i])))
 
 // Squeeze of one block: the state is transformed first exactly when the sponge was already squeezing;
 // lane j of the (new) state is written to a fresh 243-trit slice dst[j].
